@@ -331,7 +331,7 @@ func c10HTTP(e *c10Env) {
 		e.judgeShot(fmt.Sprintf("srv%d-in-session", t), fmt.Sprintf("POST %s inside a live %s session, body=80", s.path, proto), s, res, "err255")
 	}
 	for _, t := range []int{65, 67, 69, 71, 66, 68, 70} {
-		for _, plain := range [][]byte{{0x80}, {0xf6}, {0xff}, nil} {
+		for _, plain := range [][]byte{{0x80}, {0xf6}, {0xff}, nil, {0x82, 0xf6, 0x19, 0x05, 0x14}, {0x82, 0xf4, 0x80}} {
 			tok, sess, _ := e.freeze(cw, "TO2", 64, 1)
 			if sess == nil {
 				continue
@@ -352,6 +352,17 @@ func c10HTTP(e *c10Env) {
 			res = e.fire(h, s)
 			e.x.r.Case(c10Key("resp-only-clear", t, plain), true, "http:response-only-type")
 			e.judgeShot(fmt.Sprintf("srv%d-in-session", t), fmt.Sprintf("POST %s inside a live TO2 session after 64, cleartext body=%s", s.path, gen.Hex(plain)), s, res, "err255")
+			// the same cleartext at a handler whose length limit is switched off, sent with unknown length (chunked transfer):
+			// what follows ProveDevice is read through the tunnel or not at all
+			tok, _, _ = e.freeze(cw, "TO2", 64, 1)
+			hh := *h
+			hh.MaxContentLength = -1
+			s = post(mk(t), plain)
+			s.cl = -1
+			s.hdr.Set("Authorization", "Bearer "+tok)
+			res = e.fire(hh, s)
+			e.x.r.Case(c10Key("resp-only-clear-chunked", t, plain), true, "http:response-only-type")
+			e.judgeShot(fmt.Sprintf("srv%d-in-session-unlimited-handler", t), fmt.Sprintf("POST %s inside a live TO2 session after 64, cleartext body=%s, Content-Length unknown, handler.MaxContentLength=-1", s.path, gen.Hex(plain)), s, res, "err255")
 		}
 	}
 
